@@ -78,6 +78,7 @@ type OverrideSvc struct {
 	Ctor  string // "fixt/pa.New"
 	Deps  []DepM
 	Scope string
+	Tags  map[string]int // tags of a service registered at run time
 }
 
 type DepM struct {
@@ -605,6 +606,12 @@ type tagEntry struct {
 
 func (it *Interp) tagsOf(d *SvcDef) map[string]int {
 	m := map[string]int{}
+	if d.Override != nil {
+		for t, p := range d.Override.Tags {
+			m[t] = p
+		}
+		return m
+	}
 	if d.Cfg != nil && !d.Cfg.IsTodo() {
 		for _, t := range d.Cfg.Tags {
 			m[t.Name] = t.Priority() // a repeated tag would have been rejected
@@ -712,6 +719,13 @@ func (it *Interp) directDeps(name string) []string {
 				out = append(out, dep.Name)
 			case "tag":
 				addTag(dep.Name)
+			}
+		}
+		for _, dec := range it.C.Decorators {
+			if _, ok := it.tagsOf(d)[dec.Tag]; ok {
+				for _, a := range dec.Args {
+					addVal(a)
+				}
 			}
 		}
 		return out
@@ -889,7 +903,12 @@ func (it *Interp) build(name string, d *SvcDef, b bag) (any, *ErrM) {
 			return nil, first
 		}
 		i := strings.LastIndex(d.Override.Ctor, ".")
-		return it.construct(d.Override.Ctor[:i], d.Override.Ctor[i+1:], args)
+		cur, e := it.construct(d.Override.Ctor[:i], d.Override.Ctor[i+1:], args)
+		if e != nil {
+			return nil, e
+		}
+		// decorators apply to whatever carries their tag, however it was registered
+		return it.applyDecorators(name, d, cur, b)
 	}
 	s := d.Cfg
 	if s.IsTodo() {
@@ -967,6 +986,10 @@ func (it *Interp) build(name string, d *SvcDef, b bag) (any, *ErrM) {
 	if cerr != nil {
 		return nil, cerr
 	}
+	return it.applyDecorators(name, d, cur, b)
+}
+
+func (it *Interp) applyDecorators(name string, d *SvcDef, cur any, b bag) (any, *ErrM) {
 	tags := it.tagsOf(d)
 	for di, dec := range it.C.Decorators {
 		if _, ok := tags[dec.Tag]; !ok {
